@@ -1074,16 +1074,33 @@ func checkC11(w *World, r *Report) {
 		g := w.FG(rsend)
 		ok := false
 		n := 0
+		blocking := false
 		for _, in := range g.ins {
 			if s, isS := in.(*ssa.Send); isS {
 				n++
+				blocking = true
 				if w.pathOf(s.Chan) == "P0.result" && w.pathOf(s.X) == "P2" {
 					ok = true
+				}
+			}
+			if sel, isSel := in.(*ssa.Select); isSel {
+				for _, st := range sel.States {
+					if st.Dir == types.SendOnly {
+						n++
+						if sel.Blocking {
+							blocking = true
+						}
+						if w.pathOf(st.Chan) == "P0.result" && w.pathOf(st.Send) == "P2" {
+							ok = true
+						}
+					}
 				}
 			}
 		}
 		r.Check(ok && n == 1, "C11.R4", fname(rsend)+":result<-msg", "Response.Send sends its message parameter on r.result, once", w.fnPos(rsend),
 			"the reply value handed to Result is not the message that was sent to the response PID")
+		r.Check(!blocking, "C11.R4", fname(rsend)+":never-blocks", "Response.Send never blocks: a response resolves at most once, extra replies are dropped", w.fnPos(rsend),
+			"a blocking send on the one-slot result channel: a responder (or a remote peer's stream reader) that replies twice before Result() is read blocks forever")
 		// constructor
 		okC, okP := false, false
 		for _, b := range newResp.Blocks {
